@@ -37,6 +37,10 @@ type pipeCase struct {
 
 var errScripted = errors.New("scripted read error")
 
+// a read error that wraps io.EOF is still a read error (only io.EOF itself means end of input)
+var errWrapsEOF = fmt.Errorf("scripted read error at a short read: %w", io.EOF)
+var useWrappedEOF int32
+
 func (it pipeItem) step() readStep {
 	var st readStep
 	if it.N == 1 {
@@ -61,6 +65,9 @@ func (it pipeItem) step() readStep {
 		st.err = io.EOF
 	case "err":
 		st.err = errScripted
+		if atomic.LoadInt32(&useWrappedEOF) == 1 {
+			st.err = errWrapsEOF
+		}
 	}
 	return st
 }
@@ -89,7 +96,7 @@ func classifyRet(err error) string {
 	switch {
 	case err == nil:
 		return "nil"
-	case errors.Is(err, errScripted):
+	case errors.Is(err, errScripted) || err == errWrapsEOF:
 		return "readerr"
 	}
 	return "parseerr"
@@ -277,6 +284,7 @@ func replayPipe(args []string) int {
 		for rep := 0; rep < reps; rep++ {
 			api := []string{"ParseFile", "InterpretFile", "UnmarshalFile"}[rep%3]
 			atomic.StoreInt32(&jitterOn, int32(rep%2))
+			atomic.StoreInt32(&useWrappedEOF, int32((rep/3)%2))
 			o := runPipe(api, g, 3*time.Second)
 			o.Allowed = strings.Join(allowed, "|")
 			s.Judged++
